@@ -1065,3 +1065,163 @@ func c19Imports(c *Ctx, r *Report) {
 	}
 	r.need("import lines emitted by the generator", n, 4)
 }
+
+// c19OptionsFromFlags (C19-R2-options-from-flags, after wave-11 seed C19-L): which generator options
+// the command passes is decided by the command-line flags alone — every conditional
+// `append(options, profile.WithX())` in the command is controlled only by loads of flag variables
+// (and by error exits). An option switched on by the SDK version, the file name or the input makes
+// the output for a given (workbook, flags) pair differ from what the flags say: with the
+// heart-rate-source-type quirk on, a row the profile disables is emitted.
+func c19OptionsFromFlags(c *Ctx, r *Report) {
+	const rule = "C19-R2-options-from-flags"
+	n := 0
+	isFlagLoad := func(v ssa.Value) bool {
+		for i := 0; i < 3; i++ {
+			switch x := v.(type) {
+			case *ssa.BinOp:
+				if _, isK := x.Y.(*ssa.Const); isK {
+					v = x.X
+					continue
+				}
+				if _, isK := x.X.(*ssa.Const); isK {
+					v = x.Y
+					continue
+				}
+				return false
+			case *ssa.UnOp:
+				if x.Op == token.NOT {
+					v = x.X
+					continue
+				}
+				if x.Op == token.MUL {
+					if call, ok := x.X.(*ssa.Call); ok && call.Common().StaticCallee() != nil && call.Common().StaticCallee().Pkg != nil && call.Common().StaticCallee().Pkg.Pkg.Path() == "flag" {
+						return true
+					}
+				}
+				return false
+			case *ssa.Const:
+				return true
+			default:
+				return false
+			}
+		}
+		return false
+	}
+	for _, fn := range c.moduleFuncs() {
+		if fnPkgPath(fn) != mainPath {
+			continue
+		}
+		for _, b := range fn.Blocks {
+			for _, ins := range b.Instrs {
+				call, ok := ins.(*ssa.Call)
+				if !ok {
+					continue
+				}
+				f := call.Common().StaticCallee()
+				if f == nil || fnPkgPath(f) != genPath || !strings.HasPrefix(f.Name(), "With") || f.Signature.Results().Len() != 1 || !strings.HasSuffix(f.Signature.Results().At(0).Type().String(), ".GeneratorOption") {
+					continue
+				}
+				n++
+				extra := extraControllersBy(c, fn, b, true, isFlagLoad)
+				r.check(extra == "", rule, fmt.Sprintf("%s/%s", fn.Name(), f.Name()), c.pos(call.Pos()), "passed unconditionally or under command-line flags only", "generator option "+f.Name()+" is passed depending on "+extra+", which is not a command-line flag: the output for a given workbook and flag set is no longer what the flags say")
+			}
+		}
+	}
+	r.need("generator options constructed in the command", n, 3)
+}
+
+// c19FullScans (C19-R5-full-scan, after wave-11 seed C19-K): a loop in the generator that walks a slice
+// downwards from its last index and looks only at element i must reach index 0 — `for i := len(x)-1;
+// i > 0; i--` skips the first element, which in a lookup ("find the field named N") means the first
+// row of a message is never found (the generator then stops with "target field not found" for a
+// profile whose component target happens to be the first enabled row). Loops that also look at
+// element i-1 (pairwise walks) end at 1 by design and are not reported.
+func c19FullScans(c *Ctx, r *Report) {
+	const rule = "C19-R5-full-scan"
+	nLoops := 0
+	for _, fn := range c.moduleFuncs() {
+		if pp := fnPkgPath(fn); pp != mainPath && pp != genPath && pp != strPath {
+			continue
+		}
+		for _, b := range fn.Blocks {
+			for _, ins := range b.Instrs {
+				phi, ok := ins.(*ssa.Phi)
+				if !ok {
+					break
+				}
+				if len(phi.Edges) != 2 {
+					continue
+				}
+				var init, step ssa.Value
+				for i, e := range phi.Edges {
+					if b.Dominates(b.Preds[i]) {
+						step = e
+					} else {
+						init = e
+					}
+				}
+				dec, isDec := step.(*ssa.BinOp)
+				if !isDec || dec.X != ssa.Value(phi) {
+					continue
+				}
+				k, isK := dec.Y.(*ssa.Const)
+				if !isK || k.Value == nil || !((dec.Op == token.SUB && k.Int64() == 1) || (dec.Op == token.ADD && k.Int64() == -1)) {
+					continue
+				}
+				// init = len(x) - 1
+				ib, isB := init.(*ssa.BinOp)
+				if !isB || ib.Op != token.SUB {
+					continue
+				}
+				if one, ok := ib.Y.(*ssa.Const); !ok || one.Value == nil || one.Int64() != 1 {
+					continue
+				}
+				lc, isCall := ib.X.(*ssa.Call)
+				if !isCall {
+					continue
+				}
+				if bi, isBi := lc.Common().Value.(*ssa.Builtin); !isBi || bi.Name() != "len" {
+					continue
+				}
+				nLoops++
+				ifi, isIf := b.Instrs[len(b.Instrs)-1].(*ssa.If)
+				if !isIf {
+					continue
+				}
+				cond, isC := ifi.Cond.(*ssa.BinOp)
+				if !isC || cond.X != ssa.Value(phi) {
+					continue
+				}
+				z, isZ := cond.Y.(*ssa.Const)
+				skipsZero := isZ && z.Value != nil && ((cond.Op == token.GTR && z.Int64() == 0) || (cond.Op == token.GEQ && z.Int64() == 1))
+				if !skipsZero {
+					r.ok(rule, fmt.Sprintf("%s/down-loop@%s", fn.Name(), c.pos(phi.Pos())), c.pos(phi.Pos()), "downward scan reaches index 0")
+					continue
+				}
+				// pairwise walk: some use of i-1 as an index
+				pair := false
+				for _, ref := range *phi.Referrers() {
+					if bo, ok := ref.(*ssa.BinOp); ok && bo != dec && bo.Op == token.SUB && bo.X == ssa.Value(phi) {
+						for _, r2 := range *bo.Referrers() {
+							if _, isIA := r2.(*ssa.IndexAddr); isIA {
+								pair = true
+							}
+							if _, isIx := r2.(*ssa.Index); isIx {
+								pair = true
+							}
+						}
+					}
+				}
+				if dec.Referrers() != nil {
+					for _, r2 := range *dec.Referrers() {
+						if _, isIA := r2.(*ssa.IndexAddr); isIA {
+							pair = true
+						}
+					}
+				}
+				r.check(pair, rule, fmt.Sprintf("%s/down-loop@%s", fn.Name(), c.pos(phi.Pos())), c.pos(phi.Pos()), "pairwise walk (elements i and i-1): ends at 1 by design", "a downward scan over "+stripAddrs(pathOf(lc.Common().Args[0]))+" stops before index 0 (`i > 0`) and looks at element i only: the first element is never examined")
+			}
+		}
+	}
+	r.ok(rule, "scan", "", fmt.Sprintf("%d downward index loops in the generator packages examined", nLoops))
+}
